@@ -470,7 +470,7 @@ def find_loops(text, msk, f):
         brace = rs.find_depth0(msk, m.end(1), '{')
         if brace < 0 or brace > f.body_close:
             continue
-        loops.append(brace)
+        loops.append((brace, m.end(1) if m.group(1).startswith('for') else None))
     return loops
 
 
@@ -597,7 +597,12 @@ def apply_contracts(text, fspec, log, relpath, unwind=None):
                 for k, pairs in spec.loops.items():
                     if k > len(loops):
                         raise ExtractError('loop %d not found in %s (has %d loops)' % (k, f.key, len(loops)))
-                    edits.append((loops[k - 1], 0, '\n' + mark_text(pairs) + '\n' + indent_of(text, loops[k - 1])))
+                    brace, in_end = loops[k - 1]
+                    edits.append((brace, 0, '\n' + mark_text(pairs) + '\n' + indent_of(text, brace)))
+                    if k in spec.loopnames:
+                        if in_end is None:
+                            raise ExtractError('loop %d of %s is not a for loop: cannot name its iterator' % (k, f.key))
+                        edits.append((in_end, 0, '%s: ' % spec.loopnames[k]))
         elif spec.start or spec.inserts or spec.loops:
             raise ExtractError('body hints for bodiless fn %s' % f.key)
         log.rule('R-contract', f.key)
